@@ -7,7 +7,7 @@ def opf(name, sources, quick, thorough, **kw):
 
 PROPS = {}
 NOT_YET = {}
-UNFINISHED = {"C19"}  # registered in props_c*.py but not yet claimed in MANIFEST.json
+UNFINISHED = set()  # registered in props_c*.py but not yet claimed in MANIFEST.json
 ENGINES = [
     {"name": "opfuzz", "path": "engine/pbt.hpp", "serves_properties": [], "kind_free_text": "own stateful property-based testing engine: PRNG-generated operation histories, total interpreters, reference models, ddmin shrinking through sub-process replay"},
 ]
